@@ -13,11 +13,14 @@ FUNCTIONS = ["FlodymArray.__setitem__", "FlodymArray.set_values", "FlodymArray._
              "SubArrayHandler._init_ids", "SubArrayHandler._init_dims_out"]
 ASSUMPTIONS = ["sources under a subset-Dimension key carry that same subset Dimension (same letter and items)"]
 OUTSIDE = ["FlodymArray sources under list selectors", "targets with more than 4 dimensions", "keyed (non-ellipsis) ndarray assignment with a broadcastable shape (numpy semantics, not claimed by the property)"]
+VARIANTS = 'keys by letter and by name; one key object mutated between assignments; integer items out of order; dtype shadow (float64 target, integer right-hand sides)'
 BOUNDS = {
     "quick": dict(targets="(a2) (a2,b3) (b3,a2) (a2,b2) (a2,b3,c2)", keys="ellipsis + every none/item/subset selector tuple (subsets <= 2 items on 3-d)",
                   sources="every ordered subset of region letters + up to 2 surplus letters; number; ndarray exact / wrong shapes", histories="all ordered pairs of 2-d keys x {number, array}"),
     "thorough": dict(targets="quick + (a3,b3) (a2,b2,c2,d2) (c2,a3,b2)", keys="as quick", sources="as quick with 3 surplus letters", histories="pairs and triples"),
 }
+for _t in BOUNDS.values():
+    _t["variants_beyond_the_base_enumeration"] = VARIANTS
 # dtype shadow: a float64 target receiving integer-dtype right-hand sides (differential concrete run)
 DTYPE_SHADOW = lambda cfg: "always" if cfg["h"] in ("whole_nd", "whole_num") else cfg["h"] in ("assign_fa", "history")
 OPTS = {"quick": dict(shadow_every=60), "thorough": dict(shadow_every=400)}
